@@ -7,8 +7,10 @@ import (
 	"fmt"
 	"math/rand"
 	"net/url"
+	"reflect"
 	"regexp"
 	"servitor/ansi"
+	"servitor/client"
 	"servitor/jtp"
 	"servitor/pub"
 	"strings"
@@ -222,9 +224,21 @@ func init() {
 		op["before_sub"] = pre
 		item := pub.New(start, nil)
 		res := map[string]any{"item": pub.VerifDump(item)}
+		/* everything the world puts on the screen (judged under C01 and C14: error texts that quote
+		   what a server sent are part of it) */
+		shown := []any{}
+		show := func(ts ...pub.Tangible) {
+			for _, t := range ts {
+				if t == nil || len(shown) > 60 {
+					continue
+				}
+				shown = append(shown, t.Name(), t.String(80), t.Preview(80), t.String(24))
+			}
+		}
 		/* the first request, then further ones on the continuation (page and offset) it returned */
 		listing := func(c pub.Container) {
 			items, next, off := c.Harvest(uint(I(op, "harvest")), 0)
+			show(items...)
 			res["children"] = dumpList(items)
 			res["more"] = next != nil
 			rounds := []any{}
@@ -244,16 +258,70 @@ func init() {
 				listing(c)
 			}
 			ps, _ := t.Parents(uint(I(op, "parents")))
+			show(t)
+			show(ps...)
 			res["parents"] = dumpList(ps)
 		} else if c, ok := item.(*pub.Collection); ok {
 			listing(c)
 		}
+		op["shown"] = shown
 		op["canaryhits"] = s.canaryHits()
 		/* what went over the wire while the world was browsed (judged under C04) */
 		op["wire"] = logSummary(s.takeLog())
+		/* every document of the world fetched once more, after items were built from what the cache
+		   handed out: a fetch returns the document the server sent, also the second time */
+		op["refetch_differs"] = refetchAll(op, s, opid)
+		s.takeLog()
 		return res
 	}
 	groups["C02"] = group{gen: genPubWorld}
+	/* the same worlds judged by their predicates alone (what they put on the screen) */
+	groups["C02P"] = group{gen: func(r *rand.Rand, n int, emit func(Op)) {
+		genPubWorld(r, n, func(op Op) {
+			op["predicate_only"] = true
+			emit(op)
+		})
+	}}
+}
+
+var hostileStatusLines = []string{"\x1b[41;5mHTTP/1.0 200 OK", "HTTP/1.0 \x1b]0;owned\x07 200", "ICY\x1b[2J 200 OK\x1b[0;0H", "HTTP/1.0 200\u009b31m OK", "\x07\x08\x7f", "HTTP/1.0 2\x1b[5m00 OK", "SSH-2.0-\x1bc"}
+
+/* the URLs whose document, fetched again, is not the document their route serves */
+func refetchAll(op Op, s *simulator, opid string) []any {
+	differing := []any{}
+	seen := map[string]int{}
+	for _, rt := range L(op, "routes") {
+		m := Op(rt.(map[string]any))
+		seen[fmt.Sprintf("%d %s", I(m, "h"), S(m, "path"))]++
+	}
+	for _, rt := range L(op, "routes") {
+		m := Op(rt.(map[string]any))
+		h := I(m, "h")
+		if S(m, "fault") != "" || seen[fmt.Sprintf("%d %s", h, S(m, "path"))] != 1 || h < 0 || h >= len(s.hosts) {
+			continue
+		}
+		resp := substitute(S(m, "resp"), s.hosts, opid)
+		head, body, found := strings.Cut(resp, "\r\n\r\n")
+		if !found || !strings.HasPrefix(head, "HTTP/1.0 200") {
+			continue
+		}
+		var served map[string]any
+		if json.Unmarshal([]byte(body), &served) != nil {
+			continue
+		}
+		u, err := url.Parse("https://" + s.hosts[h] + substitute(S(m, "path"), s.hosts, opid))
+		if err != nil {
+			continue
+		}
+		got, _, err := client.FetchURL(u)
+		if err != nil {
+			continue
+		}
+		if !reflect.DeepEqual(map[string]any(got), served) {
+			differing = append(differing, u.String())
+		}
+	}
+	return differing
 }
 
 /* ---------- world generator: multi-host object graphs with impostors ---------- */
@@ -292,6 +360,9 @@ func (g *worldGen) serve(h int, name string, fields map[string]any) string {
 	status := "HTTP/1.0 200 OK"
 	if g.r.Intn(25) == 0 && !g.quiet {
 		status = "HTTP/1.0 404 Gone"
+	} else if g.r.Intn(30) == 0 && !g.quiet {
+		/* a server that answers with something else than HTTP: error items quote it */
+		status = pick(g.r, hostileStatusLines)
 	}
 	resp := status + "\r\nContent-Type: application/activity+json\r\n\r\n" + jsonDoc(fields)
 	g.routes = append(g.routes, map[string]any{"h": h, "path": "/{OP}/" + g.seg(name), "resp": resp, "fault": ""})
@@ -737,6 +808,25 @@ func genPubWorld(r *rand.Rand, n int, emit func(Op)) {
 			}
 		}
 		starts = append(starts, malloryURL, malloryURL, moutbox)
+		if r.Intn(5) == 0 && !g.quiet {
+			/* the server of one of the actors answers with something else than HTTP: whoever shows
+			   that actor (as author, as the performer of an activity) shows an error that quotes it */
+			who := pick(r, []string{"alice", "bob", "mallory"})
+			for k, rt := range g.routes {
+				m := rt.(map[string]any)
+				if m["path"] == "/{OP}/"+g.seg(who) {
+					resp := m["resp"].(string)
+					if i := strings.Index(resp, "\r\n"); i >= 0 {
+						c := map[string]any{}
+						for kk, v := range m {
+							c[kk] = v
+						}
+						c["resp"] = pick(r, hostileStatusLines) + resp[i:]
+						g.routes[k] = c
+					}
+				}
+			}
+		}
 		op := Op{"op": "pubworld", "routes": g.routes, "start": pick(r, starts), "before": before, "harvest": pick(r, []int{0, 1, 1 + r.Intn(8), 1 + r.Intn(8), 1 + r.Intn(8)}), "more": moreAmounts(r), "parents": r.Intn(5)}
 		if twins {
 			op["latency"] = pick(r, []int{2000, 5000, 10000})
